@@ -78,7 +78,7 @@ var avoid = map[string]bool{
 	"const-conversion-keeps-int-repr": false, // float64(3) keeps the integer representation (float64(3) % 2 accepted, float64(3)/2 = 1)
 	"float-const-to-unsigned-not-integral": false, // var x uint8 = 0.5 + 1.0 accepted (computed float constants, unsigned types)
 	"typed-const-keeps-untyped-repr": false, // const c int = 2.0 keeps the float representation (c % 3 rejected, ^c panics)
-	"const-shift-count-over-1074": true, // x >> 6400 is accepted (go/types rejects counts above 1074; C02 finding shift-count-limit)
+	"const-shift-count-over-1074": false, // x >> 6400 was accepted (go/types rejects counts above 1074) (repaired by the consts package: fix d3683c7)
 	"const-shift-float-kind":   false, // 2.0 << 3 stayed an untyped float constant (repaired: fix commit 5702f15)
 }
 
